@@ -31,6 +31,7 @@ use vcore::*;
 mod synth;
 mod synth_cff;
 mod synth_hint;
+mod synth_hint2;
 
 fn main() {
     main_for("C03", body)
@@ -638,6 +639,21 @@ fn body(run: &Run, replay: Option<&Value>) {
     run.bound("synthetic_family", json!(synth::describe()));
     run.bound("synthetic_hinted_truetype_family", json!(format!("{}; modes: unhinted + 5 interpreter targets (no auto); quick: {:?}; thorough: all fonts at ppem 1..={}", synth_hint::describe(), synth_jobs.iter().filter(|j| j.in_quick && j.name.starts_with("synth-tt:")).map(|j| j.name.clone()).collect::<Vec<_>>(), HINTED_TT_THOROUGH_N)));
     run.bound("synthetic_cff_family", json!(format!("{}; modes: unhinted + 5 hinted targets (no auto); quick: {:?}; thorough: all", synth_cff::describe(), synth_jobs.iter().filter(|j| j.in_quick && j.name.starts_with("synth-cff:")).map(|j| j.name.clone()).collect::<Vec<_>>())));
+    // CFF fonts outside the "base charstrings × Private DICT variant" product: per font its glyph classes
+    {
+        let mut extra = serde_json::Map::new();
+        for j in synth_jobs.iter().filter(|j| j.name.starts_with("synth-cff:") && j.path.to_string_lossy().contains("synth-cff-extra-")) {
+            let mut counts: BTreeMap<String, usize> = BTreeMap::new();
+            if let Some(c) = &j.classes {
+                for k in c.iter() {
+                    *counts.entry(k.clone()).or_default() += 1;
+                }
+            }
+            extra.insert(j.name.clone(), json!({"glyphs": j.glyphs, "in_quick": j.in_quick, "classes": counts}));
+        }
+        run.count("synthetic_cff_extra_fonts", extra.len() as u64);
+        run.bound("synthetic_cff_extra_fonts", Value::Object(extra));
+    }
     run.extra("skrifa_features_enabled", json!(skrifa_feature_report()));
 
     // tasks in fixed order: font → mode → ppem chunk
@@ -919,9 +935,17 @@ fn all_synth_jobs(dir: &std::path::Path) -> Vec<FontJob> {
     }
     // CFF family
     let cs = synth_cff::charstrings();
-    let classes = std::sync::Arc::new(cs.iter().map(|c| format!("CFF {}", c.0)).collect::<Vec<_>>());
+    let shared_classes = std::sync::Arc::new(cs.iter().map(|c| format!("CFF {}", c.0)).collect::<Vec<_>>());
     let programs: Vec<Vec<u8>> = cs.iter().map(|c| c.1.clone()).collect();
     for (si, spec) in synth_cff::private_specs().into_iter().enumerate() {
+        // Private DICT variants with non-integer operands carry the variant in the class (= in the violation
+        // identity): FreeType truncates some of these operands, a divergence of its own kind that must not
+        // share an identity with the integer variants of the same glyph class
+        let classes = if ["BlueShift 7.5", "BlueFuzz 1.5", "fractional BlueValues"].contains(&spec.name) {
+            std::sync::Arc::new(cs.iter().map(|c| format!("CFF {} (Private {})", c.0, spec.name)).collect::<Vec<_>>())
+        } else {
+            shared_classes.clone()
+        };
         let bytes = synth_cff::build_font(&spec, &programs);
         let path = dir.join(format!("synth-cff-{si}.otf"));
         std::fs::write(&path, &bytes).expect("write synthetic font");
@@ -936,6 +960,23 @@ fn all_synth_jobs(dir: &std::path::Path) -> Vec<FontJob> {
             auto_modes: false,
             thorough_n: None,
             in_quick: true,
+        });
+    }
+    // CFF fonts that are not "base charstrings × Private DICT variant": operators, subroutines, CID, …
+    for (ei, ef) in synth_cff::extra_fonts().into_iter().enumerate() {
+        let path = dir.join(format!("synth-cff-extra-{ei}.otf"));
+        std::fs::write(&path, &ef.bytes).expect("write synthetic font");
+        out.push(FontJob {
+            name: format!("synth-cff:{}", ef.name),
+            path,
+            index: 0,
+            glyphs: ef.classes.len() as u32,
+            flavour: "CFF",
+            synthetic: true,
+            classes: Some(std::sync::Arc::new(ef.classes.iter().map(|c| format!("CFF {c}")).collect::<Vec<_>>())),
+            auto_modes: false,
+            thorough_n: None,
+            in_quick: ef.in_quick,
         });
     }
     out
